@@ -23,6 +23,9 @@ class C03(Prop):
                "rmprefix": 0, "move": 0, "rule": 1, "unrule": 0, "reopen": 1}
     QUICK = (40, 18)
     THOROUGH = (200, 40)
+    TECHNIQUE = ("stateful property-based testing (Hypothesis) against a ledger oracle; thorough tier adds coverage-guided "
+                 "fuzzing of histories (atheris/libFuzzer driving Hypothesis' fuzz_one_input)")
+    FUZZ_RUNS = 400
     ASSUMPTIONS = ["Counter of submitted (source,target) pairs is the ground truth"]
 
     def before_op(self, case, op):
